@@ -15,13 +15,23 @@ System under simulation (all real, unmodified):
  * trace.app.zk.publish -> _unschedule; zkutils.
 
 Simulated: ZooKeeper (simkit.zk; one session per service process, resumed after
-a kill as the zkid file does, new after an expiry), the clock, the order in
-which a starting service replays the requests it finds (glob order), when
+a kill as the zkid file does, new after an expiry), the clock (10 ms pass
+between two ops; request links are stamped with the virtual time), the order
+in which a starting service replays the requests it finds (glob order), when
 watch events and directory events are handled, session expiry (also between two
 ZooKeeper calls of a handler), process kill, the master (moves placements).
 
 Every op is a non-blocking handler invocation; a run is a pure function of
 (config, ops).
+
+Oracle clauses: (1) presence nodes are created ephemeral by their session;
+(2) no set/delete on a presence node owned by another session (kill_node: only
+nodes of the host being killed); (3) the clean-up of a container deletes no
+node registered and acknowledged for a newer container of the same instance;
+(4) /scheduled/<inst> is deleted by a host only while it owns the placement
+((1),(2),(4): oracles/presencecheck.py over the ZooKeeper op log); (5) at
+quiescence after faults stop no request of a live service is unacknowledged
+unless a node it needs is owned by another session.
 """
 
 import configparser
@@ -145,6 +155,21 @@ def rsrc_id_of(inst, seq):
     return '%s-%s-k%012d' % (app, iid, seq)
 
 
+def _request_ok(op):
+    """Ops are total: a malformed request op is a no-op."""
+    if not isinstance(op.get('seq'), int):
+        return False
+    eps = op.get('eps', [])
+    if not isinstance(eps, list):
+        return False
+    for ep in eps:
+        if not (isinstance(ep, list) and len(ep) == 4):
+            return False
+    sleeps = op.get('sleeps', [])
+    return isinstance(sleeps, list) and all(isinstance(x, list)
+                                            for x in sleeps)
+
+
 def model_paths(inst, data):
     """Nodes a container registers, from the request alone (reference)."""
     out = [('running', '/running/' + inst)]
@@ -213,7 +238,7 @@ class Host:
 
 
 class World:
-    def __init__(self, config, clock, log, root):
+    def __init__(self, config, clock, log, root, patches):
         self.config = config
         self.clock = clock
         self.log = log
@@ -246,24 +271,34 @@ class World:
             'requests_acknowledged': 0, 'waits_resolved': 0,
             'requests_replayed': 0, 'replay_not_chronological': 0,
             'delete_requests_processed': 0, 'own_node_updated': 0,
-            'node_vanished_before_owner_check': 0, 'error_replies': 0,
+            'node_vanished_before_owner_check': 0,
             'stale_publish_by_non_owner': 0, 'scheduled_deleted': 0,
             'kill_node_removed_registration': 0, 'rt_registered': 0,
             'rt_waited': 0, 'rt_gave_up': 0, 'settle_rounds': 0,
             'liveness_checked_waiters': 0, 'watch_events_delivered': 0,
-            'svc_died_unhandled': 0,
         }
         self.faults = {'session_expired': 0, 'expire_mid_handler': 0,
                        'svc_killed': 0, 'kill_node': 0, 'placement_moved': 0,
                        'rt_session_closed': 0}
+        self.unexpected = {'error_replies': 0, 'svc_died_unhandled': 0}
         self.oracle = presencecheck.Oracle(self.zk)
         self.oracle.set_role(self.admin.client_id[0], 'admin', None)
+        self._install(patches)
         self._setup()
 
     # ------------------------------------------------------------------
     def fail(self, sig, detail):
         if self.violation is None:
             self.violation = {'sig': sig, 'detail': detail, 'step': self.step}
+
+    def _install(self, patches):
+        """Seams (module attributes of the modules under test)."""
+        patches.set(utils, 'sys_exit', _sys_exit)
+        patches.set(_base_service, 'glob', _Glob(self))
+        patches.set(_base_service, 'tempfile', fsseam.CountingTempfile())
+        patches.set(_base_service, 'plugin_manager', _plugins())
+        patches.set(sysinfo, 'hostname', lambda: self.cur_host)
+        self.clock.on_sleep = self.on_sleep
 
     def _setup(self):
         adm = self.admin
@@ -428,7 +463,7 @@ class World:
             pass
         if err:
             cont.waiting = False
-            self.probes['error_replies'] += 1
+            self.unexpected['error_replies'] += 1
             self.log.ev('error-reply', host.name, cont.seq)
             return res
         blockers = self._blockers(cont, sid)
@@ -474,7 +509,7 @@ class World:
                         any(p == dpath for _k, p in other.paths):
                     self.fail(
                         'C17:newer-container-unregistered:after-%s' % (
-                            cont.last_eval,),
+                            cont.last_eval or 'no-evaluation',),
                         'clean-up of container %s (#%d) on %s deleted %s, '
                         'registered and acknowledged for the newer container '
                         '%s (#%d) of %s on %s' % (
@@ -501,7 +536,8 @@ class World:
         if host is None or host.proc is not None:
             return
         host.starts += 1
-        self.probes['service_restarts'] += 1
+        if host.starts > 1:
+            self.probes['service_restarts'] += 1
         sess = self.zk.sessions.get(host.sid) if host.sid else None
         if sess is not None and sess.alive:
             # --zkid: the new process resumes the session of the killed one
@@ -601,7 +637,7 @@ class World:
         host = self.hosts.get(op.get('host'))
         inst = op.get('inst')
         if host is None or inst not in self.instances or \
-                op.get('seq') in self.conts:
+                not _request_ok(op) or op['seq'] in self.conts:
             return
         data = {'endpoints': [{'name': e[0], 'port': e[1], 'real_port': e[2],
                                'proto': e[3]} for e in op.get('eps', [])]}
@@ -703,7 +739,7 @@ class World:
         try:
             done = self.zk.deliver(proc.sid, int(op.get('n', 1)))
         except SimProcessExit:
-            self.probes['svc_died_unhandled'] += 1
+            self.unexpected['svc_died_unhandled'] += 1
             if host.proc is not None:
                 self._proc_down(host, 'exit-in-watch')
         finally:
@@ -775,7 +811,8 @@ class World:
         host = self.hosts.get(op.get('host'))
         inst = op.get('inst')
         if host is None or inst not in self.instances or \
-                op.get('seq') in self.conts or self.sleeping is not None:
+                not _request_ok(op) or op['seq'] in self.conts or \
+                self.sleeping is not None:
             return
         manifest = {'name': inst,
                     'endpoints': [{'name': e[0], 'port': e[1],
@@ -1252,8 +1289,13 @@ class PresenceSim(enginemod.Engine):
         'plugin_manager.load: resolved from entry_points.txt',
         'sysinfo.hostname / trace.app.zk._HOSTNAME: the host whose process is '
         'being stepped; context.GLOBAL.zk.conn: that process\' session',
-        'clock (virtual); time.sleep in presence._create_ephemeral_with_retry '
-        'is a simulator step (other sessions act as the op says)',
+        'clock (virtual, +10 ms per op); time.sleep in '
+        'presence._create_ephemeral_with_retry is a simulator step (other '
+        'sessions act as the op says)',
+        'mtime of a request link: set by the harness to the virtual time of '
+        'the request (the IN_ATTRIB this causes is removed from the queue)',
+        'DirWatcher objects of dead simulated processes are reused (watch '
+        'removed, kernel queue drained) instead of closed',
         'utils.sys_exit raises SimProcessExit (process death)',
         'the scheduler master: a script that creates/deletes '
         '/placement/<host>/<instance>',
@@ -1349,16 +1391,7 @@ class PresenceSim(enginemod.Engine):
         saved_conn = context.GLOBAL.zk._conn
         world = None
         try:
-            world = World.__new__(World)
-            world.replay_order = None
-            world.cur_host = 'verifhost'
-            patches.set(utils, 'sys_exit', _sys_exit)
-            patches.set(_base_service, 'glob', _Glob(world))
-            patches.set(_base_service, 'tempfile', fsseam.CountingTempfile())
-            patches.set(_base_service, 'plugin_manager', _plugins())
-            patches.set(sysinfo, 'hostname', lambda: world.cur_host)
-            World.__init__(world, config, clock, log, root)
-            clock.on_sleep = world.on_sleep
+            world = World(config, clock, log, root, patches)
             t_begin = clock.peek()
             executed = []
             n = 0
@@ -1411,6 +1444,7 @@ class PresenceSim(enginemod.Engine):
             res.probes = dict(world.probes)
             for key, val in world.oracle.counts.items():
                 res.probes['oracle_' + key] = val
+            res.extra = dict(world.unexpected)
             res.fps = world.fps
             res.nontrivial = world.probes['create_waited_for_foreign_node']
             res.trace_fp = logmod.fingerprint(executed)
@@ -1419,7 +1453,7 @@ class PresenceSim(enginemod.Engine):
             res.digest = log.digest()
             res.log_lines = log.lines if keep_log else None
         finally:
-            if world is not None and getattr(world, 'hosts', None):
+            if world is not None:
                 world.close()
             clock.on_sleep = None
             patches.undo()
